@@ -152,6 +152,7 @@ class Env:
     def __init__(self, fn_hir, facts=None):
         self.facts = facts
         self.defs = {}       # local id -> init node (for `let x = init` / tuple-lets)
+        self.opaque = {}     # local id -> init node of lets kept opaque because they read `&mut` state (see Sym(through=True))
         self.assigned = {}   # local id -> number of re-assignments
         self.mutable = set()
         self.params = {}
@@ -195,6 +196,8 @@ class Env:
                 return      # `let mut x`: never substituted (its value may change, also through &mut self calls)
             if not refutable and not self._reads_mutable_state(init):
                 self.defs[pat["id"]] = init
+            elif not refutable:
+                self.opaque[pat["id"]] = init
         elif k == "PTuple":
             i0 = strip(init)
             if i0.get("k") == "Tup" and len(i0["elems"]) == len(pat["pats"]):
@@ -277,10 +280,13 @@ def pat_names(p):
 class Sym:
     """Normal form builder."""
 
-    def __init__(self, env, facts=None, depth=12):
+    def __init__(self, env, facts=None, depth=12, through=False):
+        """through=True also substitutes single-assignment lets whose initialiser reads `&mut` state (the value *at the
+        definition*): for rules that ask where a value comes from, not what it equals at a later point."""
         self.env = env
         self.facts = facts
         self.depth = depth
+        self.through = through
 
     def __call__(self, n, d=0):
         return self.sym(n, d)
@@ -302,6 +308,8 @@ class Sym:
                 lid = to["id"]
                 if self.env.is_single(lid):
                     return s(self.env.defs[lid])
+                if self.through and lid in self.env.opaque and self.env.assigned.get(lid, 0) == 0:
+                    return s(self.env.opaque[lid])
                 return ("var", to["name"])
             if r == "def":
                 dk = to.get("dk", "")
@@ -456,6 +464,15 @@ def guards_of(target, root, sym):
                         if st is c:
                             break
                         s0 = strip(st)
+                        # `let PAT = init else { exit };` : c runs only if init matches PAT (same form as an `if let` guard)
+                        if s0.get("k") == "SLet" and s0.get("els") is not None and s0.get("init") is not None:
+                            out.append(("if", ("let", pat_key(s0["pat"]), sym(s0["init"]), tuple(pat_names(s0["pat"]))), True))
+                            continue
+                        # `if A { .. } else { exit }` : c runs only if A
+                        if s0.get("k") == "If" and s0.get("else") is not None and diverges(s0["else"]) and not diverges(s0["then"]):
+                            for a_ in conj(sym(s0["cond"])):
+                                out.append(("if", a_, True))
+                            continue
                         # `if A {exit} else if B {exit}` (no final else): c runs only if !A and !B
                         chain_conds = []
                         cur = s0
@@ -534,6 +551,64 @@ def resolve_consts(t, F):
                 return ("lit", int.from_bytes(b, "little", signed=ty.startswith("i")))
         return t
     return tuple(resolve_consts(x, F) if isinstance(x, tuple) else x for x in t)
+
+
+def value_leaves(e, wrap=()):
+    """The expressions an expression-position node can evaluate to: descends through blocks (tail), if/else branches,
+    match arms and single-argument constructor calls (`Some(if c {a} else {b})`), so that `return if c { a } else { b }`
+    (what helper inlining produces) is seen as the two returns it is.  Returns [(leaf node, constructor wrappers outer->inner)].
+    Lexical guards of a leaf (guards_of) include the conditions passed on the way."""
+    if e is None:
+        return []
+    k = e.get("k")
+    if k in ("Use", "Type"):
+        return value_leaves(e["e"], wrap)
+    if k == "Block" and not e.get("label"):
+        if e.get("expr") is not None:
+            return value_leaves(e["expr"], wrap)
+        return [(e, wrap)]
+    if k == "If" and e.get("else") is not None:
+        return value_leaves(e["then"], wrap) + value_leaves(e["else"], wrap)
+    if k == "Match" and e.get("src") in (None, "Normal") and e.get("arms"):
+        out = []
+        for a in e["arms"]:
+            out += value_leaves(a["body"], wrap)
+        return out
+    if k == "Call" and str((e.get("callee") or {}).get("dk", "")).startswith("Ctor") and len(e.get("args") or ()) == 1:
+        a = e["args"][0]
+        while a.get("k") in ("Use", "Type"):
+            a = a["e"]
+        if a.get("k") in ("If", "Match") or (a.get("k") == "Block" and (a.get("stmts") or (a.get("expr") or {}).get("k") in ("If", "Match", "Block"))):
+            c = e["callee"]
+            return value_leaves(a, wrap + (c.get("ctor_of") and c["path"] or c["path"],))
+    return [(e, wrap)]
+
+
+def wrap_value(v, wrap):
+    for w in reversed(wrap):
+        v = ("ctor", w, (v,))
+    return v
+
+
+def return_leaves(body):
+    """[(Ret node, leaf value node or None, ctor wrappers)] for every `return` of a function body (closures excluded)"""
+    out = []
+    stack = [body]
+    while stack:
+        n = stack.pop()
+        if n.get("k") == "Closure":
+            continue
+        if n.get("k") == "Ret":
+            if n.get("e") is None:
+                out.append((n, None, ()))
+            else:
+                for l, w in value_leaves(n["e"]):
+                    out.append((n, l, w))
+                stack.append(n["e"])
+            continue
+        stack.extend(kids(n))
+    out.sort(key=lambda x: (line(x[0]) or 0))
+    return out
 
 
 def diverges(b):
@@ -1132,6 +1207,40 @@ def _pat_matches(pk_, sc):
             except TypeError:
                 return False
     return False
+
+
+OPTION_PASS = ("::unwrap_or", "::unwrap_or_else", "::unwrap_or_default", "::map", "::map_or", "::map_or_else", "::and_then", "::or",
+               "::or_else", "::filter", "::copied", "::cloned", "::then", "::then_some", "::unwrap", "::expect")
+
+
+def nf_leaves(t, conds=()):
+    """Leaves of a normal form in value position with the conditions under which each is the value:
+    descends through if / match (arm guards) / closures and the Option combinators (unwrap_or, map, map_or, and_then ...).
+    A leaf that is the *source* option itself (e.g. the table lookup a combinator chain starts from) is reported too; rules
+    filter what they accept.  conds: tuple of (normal form, polarity)."""
+    if not isinstance(t, tuple) or not t:
+        return [(t, conds)]
+    h = t[0]
+    if h == "if":
+        return nf_leaves(t[2], conds + ((t[1], True),)) + nf_leaves(t[3], conds + ((t[1], False),))
+    if h == "match":
+        out = []
+        for pk_, g, body in t[2]:
+            c2 = conds + (((("matches", t[1], pk_)), True),)
+            if g is not None:
+                c2 = c2 + ((g, True),)
+            out += nf_leaves(body, c2)
+        return out
+    if h == "closure":
+        return nf_leaves(t[2], conds)
+    if h == "call" and isinstance(t[1], str) and t[1].endswith(OPTION_PASS) and ("Option" in t[1] or "option" in t[1] or "bool" in t[1]):
+        out = []
+        for a in t[2]:
+            out += nf_leaves(a, conds)
+        return out
+    if h == "ctor" and len(t[2]) == 1 and str(t[1]).endswith(("::Some", "::Ok")):
+        return nf_leaves(t[2][0], conds)
+    return [(t, conds)]
 
 
 def subterms(t):
